@@ -314,7 +314,7 @@ def c05(tier):
     import checks_stmt as cs
     cases = cs.tlc_cases(v, "intended/StmtLayoutQ.cfg")
     rnd.shuffle(cases)
-    keep = [c for c in cases if c["s"]["context"] in ("aftermultibyte", "tabindent", "afterstring") or c["s"]["layout"] in ("crlf", "tabs")
+    keep = [c for c in cases if c["s"]["context"] in ("aftermultibyte", "tabindent", "afterstring", "afterstmt") or c["s"]["layout"] in ("crlf", "tabs")
             or c["s"]["msg"] in ("unicodefirst", "unicode")]
     cases = keep[:(60000 if tier == "thorough" else 12000)] + cases[:(40000 if tier == "thorough" else 6000)]
 
@@ -326,6 +326,27 @@ def c05(tier):
                 return "C05"
         return prop
     cs.run_cases(binary, cases, v, {"C05"}, "layout", relabel=relabel)
+    # a statement on the very first line of a file, with multi-byte text before it
+    import stmt as st
+    packs = []
+    for mode in ("unstructured", "structured"):
+        for ctx in ("aftermultibyte", "afterstmt", "linestart"):
+            pk = st.Pack("first_%s_%s.rs" % (mode[0], ctx), header=False)
+            base = {"head": "bare", "target": "none", "kvs": [], "msg": "unicodefirst", "dir": "none", "trailing": "none", "layout": "space"}
+            for j in range(3):
+                pk.add(st.render_case({"s": dict(base, context=ctx if j == 0 else "afterstmt"), "mode": mode, "outcome": "missing",
+                                       "sep": ";" if mode == "structured" else "msg"}, 9100 + j))
+            pk.finish()
+            packs.append((pk, mode == "structured"))
+    cs.run_cases(binary, None, v, {"C05"}, "first-line", packs=packs, relabel=relabel)
+    # (e) the verdict under a stop request: whatever was scanned, missing references must not yield exit 0
+    batch2 = rl.Batch()
+    for structured in (False, True):
+        sc = rl.Scenario("one-missing-of-three", {"f1.rs": [S(11, ref=1)], "f2.rs": [S(21, ref=2)], "f3.rs": [S(31)]}, structured=structured)
+        rl.sweep(binary, sc, "check", ["INT", "TERM"], batch2, v)
+        sc = rl.Scenario("two-missing-of-three", {"f1.rs": [S(11)], "f2.rs": [S(21, ref=2)], "f3.rs": [S(31)]}, structured=structured)
+        rl.sweep(binary, sc, "check", ["TERM"], batch2, v)
+    batch2.judge(v, {"C05"})
     v.cov["rule"] = ("check, edit, check on model pre-states (seeded sample in quick tier) rendered with LF/CRLF and multi-byte "
                      "prelude in both styles; reported (file, line) mapped to statements, reported (file, line, column) compared "
                      "with the insertion offsets of the following edit converted by an independent line/column counter")
@@ -368,6 +389,11 @@ def c06(tier):
                              lock=lock, base=hi, maxid=1000, structured=structured)
             rl.planned_runs(binary, sc, [[("check", ""), ("edit", ""), ("check", ""), ("edit", ""), ("lock", None)]], batch, v,
                             follow="readback", sigbase={"embedding": "high"})
+    # an edit run that exits 0 must leave a tree that passes --check, also when some operation failed on the way
+    for structured in (False, True):
+        for sc in rl.small_trees(structured=structured):
+            rl.sweep(binary, sc, "edit", ["EIO", "ENOSPC"] + (["EACCES", "short"] if tier == "thorough" else []), batch, v,
+                     follow="fixpoint", only_ops=("tmp.create", "tmp.write", "tmp.rename"))
     batch.judge(v, {"C06"})
     # statement level: every shape of statement must be recognised after its own edit (second check passes, second edit
     # changes nothing)
